@@ -1,16 +1,19 @@
 ----------------------------- MODULE GenBackoff -----------------------------
 (* Outcome-sequence generator for the retry/back-off drivers (C09 b, C16). *)
 EXTENDS Backoff, Json, IOUtils
-VARIABLES script, done, histB
+VARIABLES script, done, histB, busy
 GenDepth == IF "GEN_DEPTH" \in DOMAIN IOEnv THEN atoi(IOEnv.GEN_DEPTH) ELSE 8
-gvars == <<n, hist, script, done, histB>>
+gvars == <<n, hist, script, done, histB, busy>>
+(* GEN_BUSY=1: reconciles take (virtual) time - 0, 0.3 s or 5 s - before they return their outcome: a requeue interval / back-off *)
+(* counts from the moment the reconcile returned                                                                              *)
+BusyOn == "GEN_BUSY" \in DOMAIN IOEnv /\ IOEnv.GEN_BUSY = "1"
 (* GEN_TWO=1: the second item fails too, with an outcome sequence of its own (a failing item must not hold up another one's retry) *)
 Two == "GEN_TWO" \in DOMAIN IOEnv /\ IOEnv.GEN_TWO = "1"
 (* GEN_ERRONLY=1: long streaks of consecutive failures (the back-off has to stay at its cap however long the item keeps failing) *)
 ErrOnly == "GEN_ERRONLY" \in DOMAIN IOEnv /\ IOEnv.GEN_ERRONLY = "1"
 Os == IF ErrOnly THEN <<"err", "err", "err", "err", "err", "err", "err", "panic">>
       ELSE <<"ok", "err", "err", "err", "panic", "requeue", "requeueErr", "skip">>
-GenInit == Init /\ script = <<>> /\ done = FALSE /\ histB = <<>>
+GenInit == Init /\ script = <<>> /\ done = FALSE /\ histB = <<>> /\ busy = <<>>
 GenStep ==
   \E o \in {Os[RandomElement(1..Len(Os))]}, d \in {RandomElement(Delays)},
      gap \in {RandomElement({0, 100, 400, 2000, 30000})}, ta \in {RandomElement({0, 0, 0, 1})}, tb \in {RandomElement({0, 0, 1})} :
@@ -18,8 +21,9 @@ GenStep ==
        /\ script' = Append(script, [gap |-> gap, ta |-> ta, tb |-> tb])
        /\ \E ob \in {Os[RandomElement(1..Len(Os))]}, db \in {RandomElement(Delays)} :
             histB' = IF Two THEN Append(histB, [o |-> ob, d |-> IF ob \in {"requeue", "requeueErr"} THEN db ELSE 0]) ELSE histB
+       /\ \E b \in {RandomElement({0, 0, 300, 5000})} : busy' = Append(busy, IF BusyOn THEN b ELSE 0)
        /\ UNCHANGED done
-Finish == ~done /\ PrintT(<<"BEH", ToJson([outcomes |-> hist, outcomesB |-> histB, script |-> script])>>) /\ done' = TRUE /\ UNCHANGED <<n, hist, script, histB>>
+Finish == ~done /\ PrintT(<<"BEH", ToJson([outcomes |-> [i \in 1..Len(hist) |-> [o |-> hist[i].o, d |-> hist[i].d, b |-> busy[i]]], outcomesB |-> histB, script |-> script])>>) /\ done' = TRUE /\ UNCHANGED <<n, hist, script, histB, busy>>
 GenNext == IF Len(hist) >= GenDepth THEN Finish ELSE ~done /\ GenStep
 GenSpec == GenInit /\ [][GenNext]_gvars
 =============================================================================
